@@ -700,6 +700,19 @@ def build_tree(rng, shape, bs):
         for i in range(n):
             t.add("/x/f%d" % i, type="fifo", mode=0o644, uid=0, gid=0,
                   xattrs=[("user.n", str(i).encode()), ("user.shared", b"0123456789abcdef" if i % 2 else b"short")])
+    elif shape["kind"] == "periodic":
+        # runs of identical non-zero full blocks: file `a` (M blocks) directly followed by file `b` (N blocks) of the same
+        # byte; block deduplication then matches b against a run that starts in a's blocks and runs into b's own fresh ones
+        # (M < N), is exactly a (M = N) or a prefix of it (M > N).  Files are packed in name order.
+        blk = bytes([shape.get("byte", 0x41)]) * bs
+        tail = b"A" * 100 if shape.get("tail") else b""
+        t.add_file("/p/a", blk * shape["m"] + (tail if shape.get("tail") == "both" else b""))
+        t.add_file("/p/b", blk * shape["n"] + tail)
+        if shape.get("third"):
+            t.add_file("/p/b2", blk * shape["third"])
+        if shape.get("follow"):
+            t.add_file("/p/c", rng.randbytes(bs + bs // 2))
+            t.add_file("/p/d", blk * 2 + b"zz")
     elif shape["kind"] == "small-random":
         # D11 shape: short incompressible files, tail packing off and on
         for i, sz in enumerate([100, 1, 12, 13, 4095, bs + 100]):
@@ -851,7 +864,7 @@ def compare_tree(t, parse_lines, via_tar=False):
         if o["type"] != tmap[n["type"]]:
             bad.append("%s: type %s, expected %s" % (p, o["type"], n["type"]))
             continue
-        if p != "/" and (o["mode"] != n["mode"] or o["uid"] != n["uid"] or o["gid"] != n["gid"]):
+        if p != "/" and not n.get("mode_any") and (o["mode"] != n["mode"] or o["uid"] != n["uid"] or o["gid"] != n["gid"]):
             bad.append("%s: mode/uid/gid %o/%s/%s, expected %o/%d/%d" % (p, o["mode"], o["uid"], o["gid"], n["mode"], n["uid"], n["gid"]))
         if n["type"] == "file" and o["size"] != n["size"]:
             bad.append("%s: size %d, expected %d" % (p, o["size"], n["size"]))
@@ -904,8 +917,11 @@ def image_jobs(ctx):
     jobs = []
     comps = ["gzip", "xz", "lz4", "zstd"]
 
-    def job(shape, comp, bs, opts, tool="gensquashfs", **kw):
-        jobs.append(dict(desc={"shape": shape, "comp": comp, "bs": bs, "opts": opts, "tool": tool, "seed": rng.randrange(1 << 30)}, **kw))
+    def job(shape, comp, bs, opts, tool="gensquashfs", packdir=False, **kw):
+        desc = {"shape": shape, "comp": comp, "bs": bs, "opts": opts, "tool": tool, "seed": rng.randrange(1 << 30)}
+        if packdir:
+            desc["packdir"] = True
+        jobs.append(dict(desc=desc, **kw))
 
     for comp in comps:
         job({"kind": "small-random"}, comp, 4096, [])
@@ -918,6 +934,16 @@ def image_jobs(ctx):
     for n, nl in ([(30, 250), (254, 256)] if q else [(30, 250), (31, 255), (32, 256), (247, 256), (248, 256), (249, 256), (254, 256), (251, 252), (260, 256), (700, 100)]):
         job({"kind": "bigdir", "n": n, "namelen": nl, "empty": True, "xattr": rng.random() < 0.3}, rng.choice(comps), 4096, rng.choice([[], ["-e"]]))
     job({"kind": "packdir", "n": 20}, rng.choice(comps), 4096, rng.choice([[], ["-e"]]))
+    # periodic / overlapping-run shapes for the block writer's deduplication (M < N, M = N, M > N; with/without tail; with and
+    # without later data; two block sizes; pack-file order and --pack-dir name order)
+    k = 0
+    for bs in (4096, 16384):
+        for m, n in ((1, 2), (2, 3), (1, 4), (2, 2), (3, 2), (3, 5)):
+            k += 1
+            shp = {"kind": "periodic", "m": m, "n": n, "tail": [False, True, "both"][k % 3], "follow": k % 2 == 0, "byte": 0x41 + k}
+            if k % 4 == 0:
+                shp["third"] = n + 1
+            job(shp, comps[k % 4] if not q else ["gzip", "zstd", "xz", "lz4"][k % 4], bs, [] if k % 5 else ["-T"], packdir=(k % 3 == 0))
     job({"kind": "ids", "n": 300}, rng.choice(comps), 4096, [])
     job({"kind": "xattrs", "n": 600 if q else 1100}, rng.choice(comps), 4096, [])
     job({"kind": "mixed", "n": 30}, "gzip", 131072, ["-B", "8192"], devblk=8192)
@@ -977,6 +1003,15 @@ def run_image_job(ctx, tools, unz, job, idx):
         os.symlink("a/f000", root / "a" / "b" / "sl")
         r = shx([str(tools["gensquashfs"]), "-q", "-f", "-c", d["comp"], "-b", str(d["bs"]), "-D", str(root)] + d["opts"] + [str(img)], env=env, timeout=600)
         t = None
+    elif d.get("packdir"):
+        root = wd / "root"
+        for pth, nd in t.nodes.items():
+            if nd["type"] == "file":
+                (root / pth.lstrip("/")).parent.mkdir(parents=True, exist_ok=True)
+                (root / pth.lstrip("/")).write_bytes(t.files[nd["src"]])
+        r = shx([str(tools["gensquashfs"]), "-q", "-f", "-c", d["comp"], "-b", str(d["bs"]), "-D", str(root), "--all-root"] + d["opts"] + [str(img)], env=env, timeout=600)
+        for nd in t.nodes.values():          # modes come from the scratch files: compare types, sizes only
+            nd["mode_any"] = True
     elif d["tool"] == "gensquashfs":
         cmd = [str(tools["gensquashfs"]), "-q", "-f", "-c", d["comp"], "-b", str(d["bs"]), "-F", str(wd / "pack.txt"), "-D", str(wd)] + d["opts"]
         if has_x:
